@@ -155,6 +155,16 @@ class Trial:
         else:
             self.ok(rule, "floor", "%s: %d instances (floor %d)" % (what, n, floor), nontrivial=False)
 
+    def fn(self, fid, rule="anchor"):
+        """a missing anchor fails this formulation only (another one may not need that function)"""
+        from .run import AnchorMissing
+        f = self.F.fns.get(fid)
+        if f is None:
+            self.bad(rule, "anchor-missing/" + fid, "anchor function not found in the facts: " + fid)
+            raise AnchorMissing(fid)
+        self.fns_analysed.add(fid)
+        return f
+
     def failed(self):
         return any(o[0] == "bad" for o in self.obs)
 
@@ -206,7 +216,13 @@ def either(ctx, legacy, canonical, note="accepted in canonical form (equivalent 
         for o in t2.obs:
             if o[0] == "bad":
                 sys.stderr.write("  [either: alternative formulation failed] %s/%s: %s\n" % (o[1], o[2], str(o[3])[:400]))
-    t1.commit()
+    # both fail: report the formulation that applies to the code as written - if the first one only says that it does not
+    # (its anchor is gone, or it met a shape it does not know), the second one's findings are the diagnosis
+    na = lambda o: o[0] == "bad" and (str(o[2]).startswith("anchor-missing/") or o[2] in ("unrecognised-shape",))
+    if t2.failed() and all(na(o) for o in t1.obs if o[0] == "bad") and not all(na(o) or o[2] == "canonical-rule-error" for o in t2.obs if o[0] == "bad"):
+        t2.commit(note)
+    else:
+        t1.commit()
     return False
 
 
